@@ -1,18 +1,437 @@
-//! C18 — placeholder, replaced below.
+//! C18 — invalid configurations are rejected before any input is read or output written.
+
 use super::{Budget, Property, ShrinkCaps};
 use crate::case::*;
 use crate::common::*;
+use crate::funcs;
+use crate::gen::*;
 use crate::rng::Rng;
+use crate::run::*;
 
 pub struct C18;
 
+fn is_select(o: &[String]) -> bool {
+    matches!(o[0].as_str(), "--select" | "--choose" | "-c") && o.len() == 2
+}
+
+/// (option index, is_select) of every option that carries an expression
+fn expr_options(opts: &[Vec<String>]) -> Vec<usize> {
+    let mut v = Vec::new();
+    for (i, o) in opts.iter().enumerate() {
+        if is_select(o)
+            || o[0].starts_with("--filter=")
+            || o[0].starts_with("--split-by=")
+            || o[0].starts_with("--sort-by=")
+            || o[0].starts_with("--group-by=")
+            || (o[0] == "--set" && o.len() == 2 && o[1].starts_with('@'))
+        {
+            v.push(i);
+        }
+    }
+    v
+}
+
+/// split an expression-carrying option into (prefix, expression, suffix)
+fn split_expr(o: &[String]) -> (String, String, String) {
+    if is_select(o) {
+        // EXPR=name (names are c<i> / plain words, so the last '=' separates)
+        let t = &o[1];
+        match t.rfind('=') {
+            Some(p) if !t[p..].contains(')') && !t[p..].contains('"') => {
+                (String::new(), t[..p].to_string(), t[p..].to_string())
+            }
+            _ => (String::new(), t.clone(), String::new()),
+        }
+    } else if o[0] == "--set" {
+        let t = &o[1];
+        let p = t.find('=').unwrap_or(0);
+        (t[..=p].to_string(), t[p + 1..].to_string(), String::new())
+    } else if o[0].starts_with("--sort-by=") {
+        let t = &o[0];
+        let p = t.find('=').unwrap();
+        let body = &t[p + 1..];
+        // a direction suffix such as =DESC
+        for d in ["=DESC", "=desc", "=ASC", "=asc"] {
+            if let Some(b) = body.strip_suffix(d) {
+                return (t[..=p].to_string(), b.to_string(), d.to_string());
+            }
+        }
+        (t[..=p].to_string(), body.to_string(), String::new())
+    } else {
+        let t = &o[0];
+        let p = t.find('=').unwrap();
+        (t[..=p].to_string(), t[p + 1..].to_string(), String::new())
+    }
+}
+
+fn join_expr(o: &[String], prefix: &str, expr: &str, suffix: &str) -> Vec<String> {
+    if is_select(o) || o[0] == "--set" {
+        vec![o[0].clone(), format!("{prefix}{expr}{suffix}")]
+    } else {
+        vec![format!("{prefix}{expr}{suffix}")]
+    }
+}
+
 impl Property for C18 {
-    fn id(&self) -> &'static str { "C18" }
-    fn level(&self) -> &'static str { "exploration" }
-    fn rule(&self) -> &'static str { "" }
-    fn assumptions(&self) -> Vec<String> { vec![] }
-    fn shrink_caps(&self) -> ShrinkCaps { ShrinkCaps { drop_pieces: true, simplify_records: false, shrink_raw: true, drop_opts: true } }
-    fn budget(&self, _tier: Tier) -> Budget { Budget { seconds: 5, max_cases: 10 } }
-    fn generate(&self, _rng: &mut Rng, _tier: Tier) -> Case { Case::new("C18", "todo") }
-    fn check(&self, _case: &Case, _ctx: &mut Ctx) -> Option<Violation> { None }
+    fn id(&self) -> &'static str {
+        "C18"
+    }
+    fn level(&self) -> &'static str {
+        "exploration"
+    }
+    fn rule(&self) -> &'static str {
+        "A scenario = a valid configuration from the swarm grammar (verified: the same world runs Ok) plus exactly one corruption that is invalid by construction: final ')' of a call dropped, unmatched '(' added, unknown function name, arity min-1 / max+1 from the scraped function table, trailing garbage after a complete expression, sort direction other than ASC/DESC, --set without '=', with an empty name or duplicated, JSON-only options with csv/text, text-only options with json/csv, csv without --select, csv or --headers with --group-by/--merge; in every option position and output style. World: a stdin factory that would deliver a non-empty stream; in half of the scenarios hostile stubs (every read and write fails). Oracle: go returns Err and the recorded seam history of the run is empty (stdin factory not called, no read, no write on either sink). evaluations = jawk executions; non-trivial = the corrupted configuration was executed (all scenarios that pass the validity pre-check); distinct = distinct (corruption kind, option position, output style, hostile?) combinations hashed into the abstract trace."
+    }
+    fn assumptions(&self) -> Vec<String> {
+        vec![
+            "arguments that clap itself rejects never reach go; they are exercised at the process level under C20".into(),
+            "files named on the command line are not observable in-process and are not part of this check".into(),
+            "each corruption is invalid by construction (and observed to be rejected by the pinned tree)".into(),
+        ]
+    }
+    fn shrink_caps(&self) -> ShrinkCaps {
+        ShrinkCaps {
+            drop_pieces: true,
+            simplify_records: true,
+            shrink_raw: true,
+            drop_opts: true,
+        }
+    }
+    fn budget(&self, tier: Tier) -> Budget {
+        match tier {
+            Tier::Quick => Budget {
+                seconds: 20,
+                max_cases: 150_000,
+            },
+            Tier::Thorough => Budget {
+                seconds: 300,
+                max_cases: 10_000_000,
+            },
+        }
+    }
+
+    fn generate(&self, rng: &mut Rng, _tier: Tier) -> Case {
+        let mut case = Case::new("C18", "corrupt");
+        let w = StreamWish::clean(4);
+        case.pieces = gen_stream(rng, &w);
+        if case.pieces.is_empty() {
+            case.pieces.push(Piece::rec(b"{\"id\":1}".to_vec(), 0));
+        }
+        let mut wish = PipeWish::any();
+        wish.allow_corpus = false;
+        let pipe = gen_pipe(rng, &wish);
+        case.opts = pipe.opts;
+        if rng.chance(1, 3) {
+            case.opts.push(policy_opt(*rng.pick(&[Policy::Panic, Policy::Stderr, Policy::Stdout])));
+        }
+        case.set("hostile", i64::from(rng.chance(1, 2)));
+        let base = serde_json::to_string(&case.opts).unwrap();
+        case.strs.insert("base_opts".into(), base);
+        let mut needs: Vec<String> = Vec::new();
+        let mut forbids: Vec<String> = Vec::new();
+        let style = pipe.style;
+        let exprs = expr_options(&case.opts);
+        let kind: &str;
+        // choose a corruption; fall back to one that is always possible
+        let choice = rng.below(14);
+        let fresh_position = |rng: &mut Rng, expr: &str| -> Vec<String> {
+            match rng.below(6) {
+                0 => vec![format!("--filter={expr}")],
+                1 => vec![format!("--split-by={expr}")],
+                2 => vec![format!("--sort-by={expr}")],
+                3 => vec![format!("--group-by={expr}")],
+                4 => vec!["--set".into(), format!("@zz={expr}")],
+                _ => vec!["--select".into(), format!("{expr}=zz")],
+            }
+        };
+        let replace_or_add = |case: &mut Case, o: Vec<String>| {
+            // an option that may appear only once replaces the existing one
+            let key = o[0].split('=').next().unwrap().to_string();
+            if key != "--select" && key != "--set" && key != "--sort-by" {
+                case.opts.retain(|x| x[0].split('=').next().unwrap() != key);
+                if key == "--group-by" {
+                    case.opts.retain(|x| x[0] != "--merge" && x[0] != "--headers" && x[0] != "--output-style=csv");
+                }
+            }
+            case.opts.push(o);
+        };
+        match choice {
+            0 | 1 if !exprs.is_empty() => {
+                // drop the final ')' or add an unmatched '('
+                let with_call: Vec<usize> = exprs
+                    .iter()
+                    .copied()
+                    .filter(|i| split_expr(&case.opts[*i]).1.ends_with(')'))
+                    .collect();
+                if with_call.is_empty() {
+                    let o = fresh_position(rng, "(size .");
+                    needs.push(o.last().unwrap().clone());
+                    replace_or_add(&mut case, o);
+                    kind = "dropped-paren";
+                } else {
+                    let i = *rng.pick(&with_call);
+                    let (p, e, s) = split_expr(&case.opts[i]);
+                    let e2 = if choice == 0 {
+                        kind = "dropped-paren";
+                        e[..e.len() - 1].to_string()
+                    } else {
+                        kind = "extra-paren";
+                        format!("({e}")
+                    };
+                    let o = join_expr(&case.opts[i], &p, &e2, &s);
+                    needs.push(o.last().unwrap().clone());
+                    case.opts[i] = o;
+                }
+            }
+            2 => {
+                let name = format!("zz_nope_{}", rng.below(100));
+                let o = fresh_position(rng, &format!("({name} . 1)"));
+                needs.push(o.last().unwrap().clone());
+                replace_or_add(&mut case, o);
+                kind = "unknown-function";
+            }
+            3 | 4 => {
+                let fs: Vec<&funcs::Func> = funcs::funcs()
+                    .iter()
+                    .filter(|f| !funcs::excluded_name(f.name))
+                    .filter(|f| if choice == 3 { f.min >= 1 } else { f.max != usize::MAX })
+                    .collect();
+                if fs.is_empty() {
+                    let o = fresh_position(rng, "(zz_nope . 1)");
+                    needs.push(o.last().unwrap().clone());
+                    replace_or_add(&mut case, o);
+                    kind = "unknown-function";
+                } else {
+                    let f = *rng.pick(&fs);
+                    let mut names = vec![f.name];
+                    names.extend_from_slice(f.aliases);
+                    let name = *rng.pick(&names);
+                    let n = if choice == 3 { f.min - 1 } else { f.max + 1 };
+                    let args: Vec<&str> = (0..n).map(|_| *rng.pick(&[".", "1", "\"a\"", ".s"])).collect();
+                    let o = fresh_position(rng, &format!("({name} {})", args.join(" ")));
+                    needs.push(o.last().unwrap().clone());
+                    replace_or_add(&mut case, o);
+                    kind = if choice == 3 { "arity-minus-one" } else { "arity-plus-one" };
+                }
+            }
+            5 if !exprs.is_empty() => {
+                let i = *rng.pick(&exprs);
+                let (p, e, s) = split_expr(&case.opts[i]);
+                let o = join_expr(&case.opts[i], &p, &format!("{e} xx"), &s);
+                needs.push(o.last().unwrap().clone());
+                case.opts[i] = o;
+                kind = "trailing-garbage";
+            }
+            6 => {
+                let o = vec![format!("--sort-by=.n={}", rng.pick(&["UP", "DOWN", "descending", "A SC", "1"]))];
+                needs.push(o[0].clone());
+                case.opts.push(o);
+                kind = "bad-direction";
+            }
+            7 => {
+                let o = vec!["--set".to_string(), (*rng.pick(&["novalue", "=1", "@=(. )", " =2"])).to_string()];
+                needs.push(o[1].clone());
+                case.opts.push(o);
+                kind = "malformed-set";
+            }
+            8 => {
+                let name = format!("dup{}", rng.below(10));
+                let a = format!("{name}=1");
+                let b = format!("{name}=2");
+                case.opts.push(vec!["--set".into(), a.clone()]);
+                case.opts.push(vec!["--set".into(), b.clone()]);
+                needs.push(a);
+                needs.push(b);
+                kind = "duplicate-set";
+            }
+            9 => {
+                // JSON-only option with csv/text, or text-only option with json/csv
+                if style == Style::Json {
+                    let o = vec![(*rng.pick(&["--headers", "--items-seperator=;", "--null-keyword=NIL", "--string-prefix=<"])).to_string()];
+                    needs.push(o[0].clone());
+                    forbids.push("--output-style".into());
+                    forbids.push("-o".into());
+                    case.opts.push(o);
+                    kind = "text-option-with-json";
+                } else {
+                    case.opts.retain(|o| !o[0].starts_with("--style") && o[0] != "--utf8-strings");
+                    let o = vec![(*rng.pick(&["--style=pretty", "--utf8-strings", "--style=consise"])).to_string()];
+                    needs.push(o[0].clone());
+                    needs.push(if style == Style::Csv { "--output-style=csv".into() } else { "text".into() });
+                    case.opts.push(o);
+                    kind = "json-option-with-text-or-csv";
+                }
+            }
+            10 => {
+                // text option with csv
+                case.opts.retain(|o| {
+                    !(o[0].starts_with("--output-style")
+                        || o[0] == "-o"
+                        || o[0].starts_with("--style")
+                        || o[0] == "--utf8-strings"
+                        || o[0] == "--headers"
+                        || o[0].starts_with("--items-seperator")
+                        || o[0].starts_with("--missing-value-keyword")
+                        || o[0].starts_with("--string-p")
+                        || o[0].starts_with("--group-by")
+                        || o[0] == "--merge")
+                });
+                case.opts.push(vec!["--output-style=csv".into()]);
+                case.opts.push(vec!["--select".into(), ".id=id".into()]);
+                let o = vec![(*rng.pick(&["--headers", "--items-seperator=;", "--true-keyword=T"])).to_string()];
+                needs.push(o[0].clone());
+                needs.push("--output-style=csv".into());
+                case.opts.push(o);
+                kind = "text-option-with-csv";
+            }
+            11 => {
+                // csv without selection
+                case.opts.retain(|o| {
+                    !(is_select(o)
+                        || o[0].starts_with("--output-style")
+                        || o[0] == "-o"
+                        || o[0].starts_with("--style")
+                        || o[0] == "--utf8-strings"
+                        || o[0] == "--headers"
+                        || o[0].starts_with("--items-seperator")
+                        || o[0].starts_with("--missing-value-keyword")
+                        || o[0].starts_with("--string-p"))
+                });
+                case.opts.push(vec!["--output-style=csv".into()]);
+                needs.push("--output-style=csv".into());
+                forbids.push("--select".into());
+                forbids.push("--choose".into());
+                forbids.push("-c".into());
+                kind = "csv-without-select";
+            }
+            _ => {
+                // csv or --headers with grouping
+                case.opts.retain(|o| {
+                    !(o[0].starts_with("--output-style")
+                        || o[0] == "-o"
+                        || o[0].starts_with("--style")
+                        || o[0] == "--utf8-strings"
+                        || o[0] == "--headers"
+                        || o[0].starts_with("--items-seperator")
+                        || o[0].starts_with("--missing-value-keyword")
+                        || o[0].starts_with("--string-p")
+                        || o[0].starts_with("--group-by")
+                        || o[0] == "--merge")
+                });
+                case.opts.push(vec!["--select".into(), ".id=id".into()]);
+                let g = if rng.chance(1, 2) {
+                    "--group-by=.g".to_string()
+                } else {
+                    "--merge".to_string()
+                };
+                case.opts.push(vec![g.clone()]);
+                needs.push(g);
+                if rng.chance(1, 2) {
+                    case.opts.push(vec!["--output-style=csv".into()]);
+                    needs.push("--output-style=csv".into());
+                } else {
+                    case.opts.push(vec!["-o".into(), "text".into()]);
+                    case.opts.push(vec!["--headers".into()]);
+                    needs.push("--headers".into());
+                    needs.push("text".into());
+                }
+                kind = "headers-with-grouping";
+            }
+        }
+        case.strs.insert("corruption".into(), kind.to_string());
+        case.strs.insert("needs".into(), serde_json::to_string(&needs).unwrap());
+        case.strs.insert("forbids".into(), serde_json::to_string(&forbids).unwrap());
+        case
+    }
+
+    fn check(&self, case: &Case, ctx: &mut Ctx) -> Option<Violation> {
+        // the corruption must still be in place (the shrinker may have removed it)
+        let needs: Vec<String> = case
+            .strs
+            .get("needs")
+            .and_then(|s| serde_json::from_str(s).ok())
+            .unwrap_or_default();
+        let forbids: Vec<String> = case
+            .strs
+            .get("forbids")
+            .and_then(|s| serde_json::from_str(s).ok())
+            .unwrap_or_default();
+        let tokens: Vec<&String> = case.opts.iter().flatten().collect();
+        if needs.is_empty() || !needs.iter().all(|n| tokens.iter().any(|t| *t == n)) {
+            ctx.stats.invalid = true;
+            return None;
+        }
+        if case
+            .opts
+            .iter()
+            .any(|o| forbids.iter().any(|f| o[0] == *f || o[0].starts_with(&format!("{f}="))))
+        {
+            ctx.stats.invalid = true;
+            return None;
+        }
+        let kind = case.strs.get("corruption").cloned().unwrap_or_default();
+        let hostile = case.param("hostile") == 1;
+        let input = case.stream();
+        // pre-check: the uncorrupted configuration is valid in a friendly world
+        if let Some(base) = case.strs.get("base_opts").and_then(|s| serde_json::from_str::<Vec<Vec<String>>>(s).ok()) {
+            let mut b = case.clone();
+            b.opts = base;
+            let r = ctx.exec(ref_spec(&b, &input));
+            if !r.outcome.is_ok() {
+                ctx.stats.invalid = true;
+                ctx.jawk_panic = None;
+                ctx.stats.probe("skipped: base configuration not valid");
+                return None;
+            }
+        }
+        let mut spec = case_spec(case, &input);
+        spec.delivery.whole = false;
+        if hostile {
+            spec.hostile_stdin = true;
+            spec.out.hostile = true;
+            spec.err.hostile = true;
+        }
+        let r = ctx.exec(spec);
+        ctx.stats.nontrivial = true;
+        ctx.stats.fault(&format!("config.{kind}"), 1);
+        if hostile {
+            ctx.stats.probe("hostile stubs");
+        }
+        // fold what distinguishes scenarios of this property into the trace
+        let pos = needs.first().map_or(String::new(), |n| n.split('=').next().unwrap_or("").to_string());
+        ctx.fold_trace(crate::rng::hash_bytes(format!("{kind}|{pos}|{hostile}|{}", case.opts.len()).as_bytes()));
+        match &r.outcome {
+            Outcome::Clap(_) => {
+                ctx.stats.invalid = true;
+                ctx.stats.probe("skipped: rejected by clap before go");
+                return None;
+            }
+            Outcome::Panic(..) => return None,
+            Outcome::Abort(w) => return viol("C18.rejected", format!("run aborted by the simulator: {w}")),
+            _ => {}
+        }
+        if !r.obs.events.is_empty() {
+            let e = &r.obs.events[0];
+            return viol(
+                "C18.no-io",
+                format!(
+                    "invalid configuration ({kind}: {:?}) but I/O happened before it was rejected: first seam event {:?} (of {}), stdin opened {} times, stdout {}, stderr {}; result {}",
+                    needs,
+                    e.chan,
+                    r.obs.events.len(),
+                    r.obs.opened,
+                    show(&r.obs.stdout),
+                    show(&r.obs.stderr),
+                    r.outcome.describe()
+                ),
+            );
+        }
+        if !r.outcome.is_err() {
+            return viol(
+                "C18.rejected",
+                format!("invalid configuration ({kind}: {needs:?}) was accepted: {}", r.outcome.describe()),
+            );
+        }
+        None
+    }
 }
